@@ -62,13 +62,21 @@ SetToSeq(S) == IF S = {} THEN <<>> ELSE LET x == CHOOSE y \in S : TRUE IN <<x>> 
 RECURSIVE SortedSeq(_)
 SortedSeq(S) == IF S = {} THEN <<>> ELSE LET x == CHOOSE y \in S : \A z \in S : y <= z IN <<x>> \o SortedSeq(S \ {x})
 
-\* sampled times (ms): strictly inside the phases - off the f32-ambiguous boundary instants of a
-\* millisecond grid - plus 0, the middle of the delay and a time well beyond the end
-SampleTimes(cfg) ==
+\* Times (ms) at which macro and builder twin are compared bit for bit: anything goes.
+TwinTimes(cfg) ==
   LET c == cfg.tm.cyc  d == cfg.tm.del
       cycles == IF Unbounded(cfg.tm) THEN 3 ELSE IF cfg.tm.rep = -1 THEN 1 ELSE cfg.tm.rep + 1 IN
-  SortedSeq({0} \cup {d + (((2 * j + 1) * c) \div 16) : j \in 0..(8 * cycles - 1)}
-            \cup (IF Unbounded(cfg.tm) THEN {} ELSE {d + c * cycles + c})
+  SortedSeq({0, d, d + c * cycles, d + c * cycles + c} \cup {d + ((j * c) \div 16) : j \in 0..(16 * cycles)})
+\* Times at which the spec's value predictions are compared as well.  A time is an f32: its rounding
+\* error relative to the cycle must stay small (cycles >= 100 ms, else only 0 / mid-delay / far beyond the
+\* end), and the instants where the position wraps from 100% to 0% are excluded - on a millisecond grid
+\* they fall on either side.
+SampleTimes(cfg) ==
+  LET c == cfg.tm.cyc  d == cfg.tm.del
+      cycles == IF Unbounded(cfg.tm) THEN 3 ELSE IF cfg.tm.rep = -1 THEN 1 ELSE cfg.tm.rep + 1
+      inner == IF c < 100 THEN {} ELSE {d + (((2 * j + 1) * c) \div 16) : j \in 0..(8 * cycles - 1)} IN
+  SortedSeq({0} \cup {t \in inner : ((t - d) % c) # 0}
+            \cup (IF Unbounded(cfg.tm) THEN {} ELSE {d + c * cycles + c + 100})
             \cup (IF d > 1 THEN {d \div 2} ELSE {}))
 
 Class(cfg, t, p) ==
@@ -82,7 +90,7 @@ Emit == Len(sent) > 0 =>
   LET cfg == Reading(sent)  ts == SampleTimes(cfg) IN
   PrintT(<<"REPLAY", ToJson([kind |-> "sentence", pd |-> PD, np |-> NP, args |-> sent,
                              kfs |-> cfg.kfs, de |-> cfg.de, tm |-> cfg.tm, ov |-> NoOvAll, total |-> TotalOf(cfg),
-                             ts |-> ts,
+                             ts |-> ts, tw |-> TwinTimes(cfg),
                              evals |-> [i \in 1..Len(ts) |-> LET r == Eval(cfg, NoOvAll, ts[i]) IN [p \in Props |-> SetToSeq(r[p])]],
                              cls |-> [i \in 1..Len(ts) |-> [p \in Props |-> Class(cfg, ts[i], p)]]])>>)
 =============================================================================
